@@ -430,14 +430,18 @@ func c13SweepTriples(ctx *Ctx, res *Result, rng *Rng, stride int) {
 func c13RunTrees(ctx *Ctx, res *Result, rng *Rng) {
 	// (a) all ordered triples of patterns of <= 2 bytes over {a b * ?}, both association orders,
 	//     x all words of <= 4 bytes over {a b}
-	small := c13Words("ab*?", 2)[1:] // without the empty pattern: 20 patterns
+	alpha := "a*?" // quick: 12 patterns + the empty one, 4 394 trees; thorough: {a b * ?}, 18 522 trees
+	if ctx.Tier == "thorough" {
+		alpha = "ab*?"
+	}
+	small := c13Words(alpha, 2)[1:] // without the empty pattern
 	small = append(small, "")
 	c13CheckTrees(ctx, res, c13ExhaustiveTrees(small, c13Words("ab", 4)), "exhaustive")
 	if res.Broken != "" {
 		return
 	}
 	// (b) seeded random trees of 3-5 leaves; leaves mostly from all patterns of <= 4 bytes over {a b *}
-	n := 6000
+	n := 3000
 	if ctx.Tier == "thorough" {
 		n = 120000
 	}
